@@ -53,6 +53,8 @@ func c11TokenList() []string {
 var c11Docs = []string{
 	"null\n", "5\n", "hello world\n", "{}\n", "a: 1\nb: [1, 2]\nc: {d: x}\n", "[]\n", "- 1\n- a\n- [2, 3]\n- {k: v}\n", "a: [{b: {c: [1, {d: 2}]}}]\n",
 	"x: &x {p: 1, q: [1]}\ny: *x\nz:\n  <<: *x\n  r: 2\nw: [*x, &s s, *s]\n", "a: &x [*x, *x]\nb: &y {k: *y}\n", "- 0x1F\n- 1.5\n- ~\n- .inf\n- 2021-01-01T00:00:00Z\n- !t v\n- |\n  lit\n",
+	// a collection tag on a node of the other kind
+	"[!!map [1]]\n", "[!!seq {a: 1}, !!seq {b: 2}]\n", "!!seq {a: 1}\n", "!!map [1, 2]\n",
 	// merge keys whose value is not an alias
 	"a: {<<: foo, b: 1}\nc: {<<: {p: 1}, q: 2}\nd: {<<: [{r: 1}, bar], s: 2}\n",
 	// explicit core tags on values the tag's parser does not expect (every consumer of a tagged number must cope)
@@ -320,6 +322,9 @@ func c11FlagCases() []c11Case {
 	for _, v := range []string{"", "extract", "process", "bogus"} {
 		add("front", "--front-matter="+v, ".")
 		add("yaml", "--front-matter="+v, ".")
+		add("front", "--front-matter="+v, "-s", ".a", ".")
+		add("front", "--front-matter="+v, "select(.nope)")
+		add("front", "--front-matter="+v, "-o=json", ".")
 	}
 	for _, v := range []string{"", "bogus", "a", "auto"} {
 		add("yaml", "-o="+v, ".")
